@@ -1,14 +1,14 @@
-\* exhaustive: every boundary list within {1,3,5}, <= 4 recorded values from ranks 0..6 over 3 objects,
-\* <= 3 New/Merge/Diff steps, record_min_max on and off
-CONSTANTS MaxRank = 6
-  BoundSets = {{}, {1}, {3}, {5}, {1,3}, {1,5}, {3,5}, {1,3,5}}
+\* exhaustive: 2 aggregation objects, every boundary list within {1,3} over ranks 0..4, <= 3 Aggregate and
+\* <= 4 New/Merge/Diff steps in any order (Merge/Diff results are aggregated into and merged again)
+CONSTANTS MaxRank = 4
+  BoundSets = {{}, {1}, {3}, {1,3}}
   Tables = {"D_small"}
   MMChoices = {TRUE, FALSE}
-  Mode = "direct" NSlots = 3 NKeys = 1 ReaderCfgs = {1}
-  MaxAgg = 4 MaxOps = 4 Balanced = FALSE Dev = {} Hist = FALSE
+  Mode = "direct" NSlots = 2 NKeys = 1 ReaderCfgs = {1}
+  MaxAgg = 3 MaxOps = 4 Balanced = FALSE Dev = {} Hist = FALSE
 INIT Init
 NEXT Next
 VIEW View
 CONSTRAINT Bound
 INVARIANTS TypeOK BucketsPartition BucketRule EveryValueInOneBucket SumExact MinMaxExact PointIsSummary
-  MergeIsHomomorphism DiffIsInverse DevsAreNarrow DiffAltOnlyAfterDiff
+  MergeIsHomomorphism DiffIsInverse DiffAltOnlyAfterDiff
